@@ -11,14 +11,15 @@ SPEC = {
                  'C36_after_close_no_block_forever_partial', 'C36_blocked_witness',
                  'C36_partial_guard_satisfiable', 'C36_bulk_fill_agrees'],
     'allowed_axioms': [],
-    'shard': 24,
+    'shard': 60,
     'check_preamble': 'From C33 Require Import C36.Model C36.Spec.\nOpen Scope N_scope.\n',
     'rule': '(a) scripted scenarios on the real queue: one orchestrating goroutine issues one API call after the other '
-            '(NewMessage pooled/plain, FreeMessage, Sub, SendTimeout high/low with timeout -1/0/30ms, non-blocking Recv, '
-            'Reply, WaitTimeout 30ms / Wait, Client.Close, Queue.Close); a call counts as blocked when it has not returned after '
-            '200 ms; after every call the harness waits until the pump goroutines are at rest (message conservation + stable '
-            'channel lengths) and records which parked calls returned and len(high), len(low) per topic, len(recv) per client; '
-            'at the end (after 3 s when the queue was closed) the sends still parked. Topics are preset through the hook with '
+            '(NewMessage pooled/plain, FreeMessage, Sub, SendTimeout high/low with timeout -1/0/10ms, non-blocking Recv, '
+            'Reply, WaitTimeout 10ms / Wait, Client.Close, Queue.Close), the scenarios run one after the other; a call counts as '
+            'blocked when it has not returned although every other goroutine of the process is parked (runtime.Stack states, '
+            'checked twice; calls with their own timer are waited for); after every call the harness waits for that rest state '
+            'and records which parked calls returned and len(high), len(low) per topic, len(recv) per client; at the end the '
+            'sends still parked (looked at again 3 s after the last call when the queue was closed). Topics are preset through the hook with '
             'capacities high 1-3 / low 1-4 (recv is 5 as in the code); one scenario uses the real 64/40960 channels. 1-2 topics, '
             '2-4 clients, 6-40 calls, generated online from the API-level view. Streams: guarded (discipline kept, no low '
             'wait-forever send, only subscribed clients are closed: every spec failure is a violation), unrestricted (may hit '
@@ -33,9 +34,8 @@ SPEC = {
         'one locked section = one event"; the pump goroutine evaluates its outer and inner select as one event (so a low-priority '
         'message is never taken after the topic was closed); Go select picks any ready case (modelled as several enabled events)',
         'ghost state in the model (never read by step): o_sent, o_where, s_deliv; the discipline predicate disc refers to o_where / o_sent',
-        'correspondence is by scripted scenarios: enabledness = "returned within 200 ms"; the harness decides when the pump '
-        'goroutines are at rest (conservation of messages and stable lengths) - a scheduling delay beyond the 400 ms settle limit '
-        'would show as a model disagreement',
+        'correspondence is by scripted scenarios: not enabled = "the call has not returned although all other goroutines are '
+        'parked" (goroutine states from runtime.Stack), plus the 3 s re-check of parked sends at the end',
         'hook file /repo/queue/access_verif.go (build tag verif): VerifPresetTopic (creates a topic with small channel capacities), '
         'VerifLens (len(high), len(low), isClose of a topic)',
         'Check.bulk_fill (used only for the 40960-message fill) is a big-step shortcut of n x (ENew; ESend low MNow); '
@@ -65,8 +65,8 @@ SPEC = {
                       'errors proved; "no send blocks for ever after close" refuted (finding 1) with a partial theorem; '
                       '"Close closes the client" refuted for never-subscribed clients (finding 2). Tie to the Go code by '
                       'scripted event-by-event correspondence; the concurrent runs are a test',
-        'level_note': 'hand-written LTS, event granularity and pump atomicity as listed in the trusted base; blocking observed with '
-                      'a 200 ms timeout; hook file for small capacities',
+        'level_note': 'hand-written LTS, event granularity and pump atomicity as listed in the trusted base; blocking observed '
+                      'through goroutine states; hook file for small capacities',
         'technique': 'Coq proof (invariants by induction over all traces of a labelled transition system) + in-kernel '
                      'correspondence check of scripted scenarios + concurrent monitor test',
     },
